@@ -222,7 +222,7 @@ class NetworkGraph(AbstractBaseIR):
                 if not scalar_edges:
                     continue
 
-                delays, spreads, nodes, add_delay = self._collect_delays_from_edges(scalar_edges)
+                delays, spreads, nodes, add_delay = self._collect_delays_from_edges(scalar_edges, dde_approx=dde_approx)
 
                 # add synaptic buffer to output variables with delay
                 if add_delay:
@@ -315,7 +315,7 @@ class NetworkGraph(AbstractBaseIR):
 
         return edges_new
 
-    def _collect_delays_from_edges(self, edges):
+    def _collect_delays_from_edges(self, edges, dde_approx: int = 0):
         means, stds, nodes = [], [], []
         for s, t, e in edges:
 
@@ -329,7 +329,8 @@ class NetworkGraph(AbstractBaseIR):
             n_slots = max(len(self.edges[s, t, e]['target_idx']), 1)
             if v is None or np.sum(v) == 0:
                 v = [0] * n_slots
-                discretize = True
+                # with dde_approx the delay feeds rate = n/delay of the ODE cascade: keep it in time units
+                discretize = not dde_approx
             else:
                 discretize = False
                 v = self._process_delays(v, discretize=discretize)
